@@ -53,6 +53,7 @@ mod facade {
             init: u8,
         }
 
+        #[allow(dead_code)]
         impl AtomicU8 {
             pub const fn new(v: u8) -> AtomicU8 {
                 AtomicU8 { init: v }
@@ -63,6 +64,27 @@ mod facade {
             }
             pub fn store(&self, v: u8, o: Ordering) {
                 CELL.store(v, o)
+            }
+            pub fn swap(&self, v: u8, o: Ordering) -> u8 {
+                CELL.swap(v, o)
+            }
+            pub fn compare_exchange(&self, c: u8, n: u8, s: Ordering, f: Ordering) -> Result<u8, u8> {
+                CELL.compare_exchange(c, n, s, f)
+            }
+            pub fn compare_exchange_weak(&self, c: u8, n: u8, s: Ordering, f: Ordering) -> Result<u8, u8> {
+                CELL.compare_exchange_weak(c, n, s, f)
+            }
+            pub fn fetch_or(&self, v: u8, o: Ordering) -> u8 {
+                CELL.fetch_or(v, o)
+            }
+            pub fn fetch_and(&self, v: u8, o: Ordering) -> u8 {
+                CELL.fetch_and(v, o)
+            }
+            pub fn fetch_add(&self, v: u8, o: Ordering) -> u8 {
+                CELL.fetch_add(v, o)
+            }
+            pub fn fetch_max(&self, v: u8, o: Ordering) -> u8 {
+                CELL.fetch_max(v, o)
             }
         }
     }
